@@ -205,9 +205,11 @@ def main():
     # a large output of one run (several hundred parses of a non-ASCII text: more than 64 KiB of UTF-8 once
     # uncompressed), read back by the wrapper
     for kk in range(3 if ck.thorough else 1):
-        alpha = ['uː', 'dʒ', 'ʌ', 'ŋ', '日本', 'é']
+        # every unit is made of multi-byte characters (2, 3 and 4 bytes in UTF-8) and the run prints about ten blocks of
+        # 64 KiB: a reader that decodes the output block by block meets a character cut by a block boundary
+        alpha = ['uː', 'dʒʌ', 'ŋŋ', '日本', 'éé', '\U0001d11e\U0001d11e', '語']
         text_units, _ = gens.random_text(rng, alpha, nutts=30, max_words=3)
-        res, runs, left, args = run_case(ck, bindir_real, text_units, None, 400 + 37 * kk, 1, 7 + kk, 1 + kk, 1 + kk, -200, None, 'Colloc0', 'large-output')
+        res, runs, left, args = run_case(ck, bindir_real, text_units, None, 1500 + 37 * kk, 1, 7 + kk, 1 + kk, 1 + kk, -200, None, 'Colloc0', 'large-output')
         desc = {'text': gens.lines(text_units)[:3] + ['...'], 'args': args, 'family': 'large-output'}
         if runs is None:
             bad.append((desc, 'the raw output of a run could not be captured (result %r)' % (res,)))
